@@ -857,6 +857,13 @@ pub fn step(s: &State, op: Op, cfg: &JudgeCfg) -> StepResult {
         }
     }
 
+    // a successor that is out of the model's reach is never expanded, but the model-free
+    // invariants are statements about *every* arena a history of valid calls produces
+    if fails.iter().any(|f| f.shaping) {
+        fails.extend(crate::judges::j01(&arena, &obs1));
+        fails.extend(crate::judges::j02(&obs1));
+    }
+
     let mut next = State {
         arena,
         cur: cur1,
